@@ -340,6 +340,10 @@ def neval(e: ast.AST, env: Dict[str, object]):
   raise NoValue(key)
 
 
+class Raised(Exception):
+  """The interpreted body executed a raise statement."""
+
+
 class _Ret(Exception):
 
   def __init__(self, v):
@@ -390,6 +394,19 @@ def run_concrete(fn: ast.AST, env: Dict[str, object]):
         block(st.body if neval(st.test, env) else st.orelse)
       elif isinstance(st, ast.Assign) and len(st.targets) == 1 and isinstance(st.targets[0], ast.Name):
         env[st.targets[0].id] = neval(st.value, env)
+      elif isinstance(st, ast.Assign) and len(st.targets) == 1 and isinstance(st.targets[0], ast.Tuple) \
+          and all(isinstance(t, ast.Name) for t in st.targets[0].elts):
+        v = neval(st.value, env)
+        try:
+          vs = list(v)
+        except TypeError:
+          raise NoValue(unparse(st.value, 0))
+        if len(vs) != len(st.targets[0].elts):
+          raise NoValue(unparse(st.value, 0))
+        for t, x in zip(st.targets[0].elts, vs):
+          env[t.id] = x
+      elif isinstance(st, ast.Raise):
+        raise Raised(unparse(st.exc, 60) if st.exc is not None else 'raise')
       elif isinstance(st, ast.AnnAssign) and isinstance(st.target, ast.Name) and st.value is not None:
         env[st.target.id] = neval(st.value, env)
       elif isinstance(st, ast.Expr) and isinstance(st.value, ast.Constant):
